@@ -135,7 +135,9 @@ class HSTRPDatagramProtocol(DatagramProtocol, LoggingTrait):
             was_handled = True
             was_confirmed = True
             self.hstrp_set_connected(connected=True)
-            self.hstrp_send_ack(addr, pdu)
+            if not pdu.pkt_type.is_ack:
+                # confirm connection request, never confirm a confirmation
+                self.hstrp_send_ack(addr, pdu)
         elif pdu.pkt_type.is_heartbeat:
             # heartbeat
             was_handled = True
@@ -150,8 +152,9 @@ class HSTRPDatagramProtocol(DatagramProtocol, LoggingTrait):
             was_handled = True
             # CLOSE is not confirmed protocol
             was_confirmed = True
-            # confirm connection closing hstrp message
-            self.hstrp_send_ack(addr, pdu)
+            # confirm connection closing hstrp message, never confirm a confirmation
+            if not pdu.pkt_type.is_ack:
+                self.hstrp_send_ack(addr, pdu)
         elif pdu.pkt_type.is_ack:
             # received confirmation from peer
             was_handled = True
